@@ -263,6 +263,17 @@ def check_case(case):
             payload = json.dumps(payload) if as_text and n <= 900 else payload
             fn = lambda p, allow_custom: stix2.parse_observable(p, allow_custom=allow_custom, version="2.1")  # noqa: E731
         desc = "nesting depth %d (%s) at %s as %s" % (n, kind, where, "text" if as_text else "dict")
+        if case["nest"].get("via") == "constructor":
+            # the class constructor called directly with the same content (not through parse())
+            if not isinstance(payload, dict) or not isinstance(payload.get("type"), str):
+                return []
+            from stix2 import registry
+            cls = registry.class_for_type(payload["type"], "2.1", "objects") or registry.class_for_type(payload["type"], "2.1", "observables")
+            if cls is None:
+                return []
+            kw = {k: v for k, v in payload.items() if k != "type"}
+            fn = lambda p, allow_custom: cls(allow_custom=allow_custom, **kw)  # noqa: E731
+            desc += " through the constructor"
         before = registry_snapshot()
         try:
             res, exc = with_watchdog(lambda: core.guarded(fn, payload, allow_custom=case["nest"]["allow_custom"]))
@@ -271,6 +282,8 @@ def check_case(case):
         # where the recursion limit is hit decides the root cause: json.loads on any deeply nested text, the document itself
         # being a deeply nested non-object, or (not on the pinned tree) a property value that slipped past cleaning
         site = "json-text" if as_text else "document" if where == "document" else "property:" + where
+        if case["nest"].get("via") == "constructor":
+            site = "constructor:" + where
         fails = judge("parse", desc, res, exc, site=site)
         if registry_snapshot() != before:
             fails.append(("registry-changed", desc))
@@ -584,6 +597,11 @@ def run(ctx):
                         fails = check_case(case)
                         ctx.note(case, True, ["nesting:%d" % depth, "nest-input:" + ("text" if as_text else "dict"), "nest-site:%s/%s" % (host, where)])
                         ctx.handle(case, fails or [])
+                        if not as_text and where not in ("document", "bundle-in-bundle", "parse_observable"):
+                            case = {"nest": {"depth": depth, "kind": kind, "where": where, "text": False, "allow_custom": allow, "via": "constructor"}, "doc": hosts[host], "entry": "constructor"}
+                            fails = check_case(case)
+                            ctx.note(case, True, ["nesting:%d" % depth, "nest-input:constructor", "nest-site:%s/%s" % (host, where)])
+                            ctx.handle(case, fails or [])
     ctx.collect_only = False
 
 
